@@ -428,7 +428,13 @@ func (ipfs *Connector) pinProgress(ctx context.Context, hash cid.Cid, maxDepth a
 
 	dec := json.NewDecoder(res.Body)
 	for {
-		var pins ipfsPinsResp
+		// A failure after the first progress message arrives as an
+		// error object inside the (200) stream, and as a trailer.
+		var pins struct {
+			ipfsPinsResp
+			Message string
+			Type    string
+		}
 		if err := dec.Decode(&pins); err != nil {
 			// If we cancelled the request we should tell the user
 			// (in case dec.Decode() exited cleanly with an EOF).
@@ -437,10 +443,17 @@ func (ipfs *Connector) pinProgress(ctx context.Context, hash cid.Cid, maxDepth a
 				return ctx.Err()
 			default:
 				if err == io.EOF {
+					if streamErr := res.Trailer.Get("X-Stream-Error"); streamErr != "" {
+						return ipfsError{path: path, code: res.StatusCode, Message: streamErr}
+					}
 					return nil // clean exit. Pinned!
 				}
 				return err // error decoding
 			}
+		}
+
+		if pins.Type == "error" {
+			return ipfsError{path: path, code: res.StatusCode, Message: pins.Message}
 		}
 
 		select {
